@@ -112,10 +112,26 @@ def paths_under(ff: FuncFacts, val: Dict[str, bool], start: Optional[Node] = Non
                 if any(k == f'{t} is None' or k.startswith(t + ' ') or k.startswith(t + '.') or k == t or f'({t}' in k or f' {t})' in k or f'{t},' in k for t in asg):
                     del v[k]
             a = n.ast
+            if isinstance(a, ast.AnnAssign) and a.value is not None:
+                a = ast.Assign(targets=[a.target], value=a.value)
             if isinstance(a, ast.Assign) and len(a.targets) == 1:
                 t = norm(a.targets[0])
+                val_ = a.value
+                # truthiness of what is stored, where the display itself tells (locals only: an attribute may be changed by any call in between)
+                if not isinstance(a.targets[0], ast.Name):
+                    pass
+                elif isinstance(val_, ast.JoinedStr) and any(isinstance(p_, ast.Constant) and p_.value for p_ in val_.values):
+                    v[t] = True
+                elif isinstance(val_, ast.Constant) and not isinstance(val_.value, type(None)):
+                    v[t] = bool(val_.value)
+                elif isinstance(val_, (ast.Tuple, ast.List, ast.Set)) and not any(isinstance(x, ast.Starred) for x in val_.elts):
+                    v[t] = bool(val_.elts)
+                elif isinstance(val_, ast.Dict) and all(k_ is not None for k_ in val_.keys):
+                    v[t] = bool(val_.keys)
                 if isinstance(a.value, ast.Constant) and a.value.value is None:
                     v[f'{t} is None'] = True
+                    if isinstance(a.targets[0], ast.Name):
+                        v[t] = False
                 elif isinstance(a.value, (ast.Call, ast.Tuple, ast.List, ast.Dict, ast.Set, ast.JoinedStr, ast.Lambda, ast.ListComp, ast.DictComp, ast.SetComp)) or (
                         isinstance(a.value, ast.Constant) and a.value.value is not None):
                     v[f'{t} is None'] = False
@@ -196,3 +212,52 @@ def value_on_path(path: Sequence[Node], upto: int, e: ast.AST, depth: int = 4) -
             return node
 
     return T().visit(copy.deepcopy(e))
+
+
+def effective_call(path: Sequence[Node], idx: int, call: ast.Call) -> Tuple[str, List[str], Dict[str, str]]:
+    """(callee text, positional argument texts, {keyword: text}) of ``call`` with locals replaced by the values they hold
+    on this path and a ``**{...}`` display spelled out as keywords."""
+    c2 = value_on_path(path, idx, call)
+    kws: Dict[str, str] = {}
+    for k in c2.keywords:
+        if k.arg is None and isinstance(k.value, ast.Dict) and all(isinstance(x, ast.Constant) for x in k.value.keys):
+            for kk, vv in zip(k.value.keys, k.value.values):
+                kws[str(kk.value)] = norm(vv)
+        else:
+            kws[k.arg or '**'] = norm(k.value)
+    return norm(c2.func), [norm(x) for x in c2.args], kws
+
+
+def dispatch_table(ff: FuncFacts, subject: str, consts: Dict[str, object], site: Callable[[ast.Call], bool]):
+    """Decision table of a dispatcher: for every constant the subject may equal (and for "none of them", key None) the
+    outcome of every path -- ('call', callee, args, kws, node, call, is_returned) for the LAST call on the path satisfying
+    ``site`` (evaluated after path substitution, so a handler picked into a local first is seen as the handler), ('raise', text)
+    or ('return', text).  The same table comes out of an if/elif ladder, early returns, a handler variable or a helper returning
+    (callee, kwargs)."""
+    out: Dict[object, list] = {}
+    for member in list(consts) + [None]:
+        val = {f'{subject} == {consts[m]!r}': (m == member) for m in consts}
+        res = []
+        for path in paths_under(ff, val, frozen=[subject]):
+            hits = []
+            for i, m_ in enumerate(path):
+                e = m_.expr()
+                for c in ([x for x in walk_shallow(e) if isinstance(x, ast.Call)] if e is not None else []):
+                    callee, args_, kws_ = effective_call(path, i, c)
+                    probe = ast.Call(func=ast.parse(callee, mode='eval').body, args=c.args, keywords=c.keywords) if callee != norm(c.func) else c
+                    if site(probe):
+                        hits.append((i, c, callee, args_, kws_))
+            if path[-1] is ff.cfg.raise_exit:
+                rs = [m_ for m_ in path if m_.kind == 'raisestmt']
+                res.append(('raise', norm(rs[-1].ast.exc) if rs and rs[-1].ast.exc is not None else ''))
+            elif hits:
+                i, c, callee, args_, kws_ = hits[-1]
+                v = path[i].ast.value if path[i].kind == 'return' else None
+                if isinstance(v, ast.Await):
+                    v = v.value
+                res.append(('call', callee, tuple(args_), tuple(sorted(kws_.items())), path[i], c, v is c))
+            else:
+                rets = [m_ for m_ in path if m_.kind == 'return']
+                res.append(('return', norm(rets[-1].ast.value) if rets and rets[-1].ast.value is not None else 'None'))
+        out[member] = res
+    return out
